@@ -114,7 +114,7 @@ def ob_kernel(ctx, cfg, mods, name, spec, n, alias=None):
         m = r[1]
         lanes = {nm: [inval(k, '%s%d' % (nm, i), m) for i in range(n)] for nm, k in spec['inputs'].items()}
         return confirm(ctx, cfg, name, fn, spec, n, lanes, r[2])
-    if r[0] == 'event': return viol('%s/event' % name, 'path ends in %s: %s' % (r[1], r[2]), replay=dict(kernel=name, event=str(r[2])))
+    if r[0] == 'event': return viol('%s/%s' % (name, getattr(r[2], 'kind', 'event')), 'path ends in %s: %s' % (r[1], r[2]), replay=dict(kernel=name, event=str(r[2])))
     return inconc(str(r[1]))
 
 ALIAS = [None]
